@@ -420,6 +420,43 @@ def h_sci_step(ctx, state):
         return "%s->%s" % (st_enum.name, p._rx_state.name)
 
 
+def h_two_receivers(ctx, which):
+    """Two live receivers of the same kind (two gateways in one process).  Receiver A gets the first k bytes of
+    an observed-frame message (k solver-chosen), then receiver B gets a whole message of its own with other
+    symbolic bits, then A gets the rest: each must deliver exactly its own frame - receivers share nothing."""
+    from harness import rigs
+    with _patched(ctx):
+        mk = (lambda: S.DriverLubaRs232.LubaProtocol()) if which == "luba" else (lambda: S.DriverSCIRS232.SCIRS232Protocol())
+        pa, pb = mk(), mk()
+        qa, qb = S.DistributorQueue(pa.queue_rx_dali), S.DistributorQueue(pb.queue_rx_dali)
+        xa, xb = ctx.fresh("xa", 0, 0xFFFF), ctx.fresh("xb", 0, 0xFFFF)
+
+        def pkt(x):
+            fb = [(x >> 8) & 0xFF, x & 0xFF]
+            return rigs.luba_event_rx(fb) if which == "luba" else rigs.sci_frame(0x13, 0, fb[0], fb[1])
+        fa, fbm = pkt(xa), pkt(xb)
+        k = 1 + ctx.fresh_choice("split", len(fa) - 1)
+
+        def feed():
+            pa.data_received(fa[:k])
+            pb.data_received(fbm)
+            pa.data_received(fa[k:])
+        st, r = call(feed)
+        tag = "%s-two" % which
+        if st == "exc":
+            ctx.fail("a receiver raised %r" % (r,), key=tag + "/raised:" + type(r).__name__)
+            return "raised"
+        for who, q, x in (("A", qa, xa), ("B", qb, xb)):
+            got = []
+            while q.qsize():
+                got.append(q.get_nowait())
+            seen = [(g.data, g.width) if isinstance(g, Decoded) else (g.frame.as_integer, len(g.frame)) for g in got]
+            ok = len(seen) == 1 and seen[0][1] == 16
+            ctx.prove(ok and E.eq(seen[0][0], x), "receiver %s delivered %r instead of its own observed frame"
+                      % (who, seen), key=tag + "/own-frame:" + who)
+        return "split@%d" % k
+
+
 def h_observed_real(ctx, which, bits):
     """A well-formed 'frame observed on the bus' message carrying any 16- or 24-bit frame, through the
     receiver with the library's real decoder behind it (no stub): exactly one command carrying exactly those
@@ -455,6 +492,7 @@ def h_observed_real(ctx, which, bits):
 def cases(tier):
     cs = []
     for which in ("luba", "sci"):
+        cs.append(Case("%s-two-receivers" % which, h_two_receivers, {"which": which}))
         for bits in (16, 24):
             cs.append(Case("%s-observed-real-%d" % (which, bits), h_observed_real, {"which": which, "bits": bits}))
     for s in range(5):
